@@ -48,6 +48,7 @@ def run(chk):
     impl = fw.run_oracle_resilient(ops, "c09")
     model = fw.run_model(ops, "c09", timeout=3000)
     nb = len(BUDGETS)
+    pending = []
     for pi, p in enumerate(progs):
         res_i = [(b, fw.asm_line(impl[pi * nb + k])) for k, b in enumerate(BUDGETS)]
         res_m = [(b, model[pi * nb + k]) for k, b in enumerate(BUDGETS)]
@@ -61,7 +62,27 @@ def run(chk):
         chk.count("programs_ok_from_budget_%s" % (okb[0] if okb else "never"))
         bad = sweep_problem(res_i)
         if bad:
-            chk.violate("the budget changes the result", {"program": p, "options": ops[pi * nb].split(" ")[2:4]}, "same result for every sufficient budget, passes <= budget", bad)
+            pending.append((pi, p, bad, all(li == lm for (_, li), (_, lm) in zip(res_i, res_m))))
+    # a difference is attributed to the recorded finding F38 only if the model, with the budget of the loops of `asm`
+    # blocks pinned (request `inner 30 asm ...`) and nothing else changed, shows no difference at all under the same
+    # outer budgets: then the only cause left is eval_asm's use of the outer `max_iterations` for its own loop
+    known = {k["id"]: k for k in fw.known_findings("C09") if k["status"] == "open"}
+    if pending:
+        iops = []
+        for pi, p, bad, agree in pending:
+            o = ops[pi * nb].split(" ")[2:4]
+            for b in BUDGETS:
+                iops.append("inner 30 " + fw.asm_op([("main.asm", p)], max_iter=b, opt_s=o[0] == "1", opt_m=o[1] == "1"))
+        ires = fw.run_model(iops, "c09i", timeout=3000)
+        for j, (pi, p, bad, agree) in enumerate(pending):
+            pinned = [(b, ires[j * nb + k]) for k, b in enumerate(BUDGETS)]
+            inp = {"program": p, "options": ops[pi * nb].split(" ")[2:4]}
+            # (the model must reproduce the implementation's answers under every budget: the difference is then the model's too)
+            if "F38" in known and agree and "asm" in p and sweep_problem(pinned) is None and "passes" not in bad and "panic" not in bad:
+                chk.known("F38", known["F38"]["observed"])
+                chk.count("inner_budget_difference_F38")
+            else:
+                chk.violate("the budget changes the result", inp, "same result for every sufficient budget, passes <= budget", bad)
     chk.sample({"program": progs[-1][-300:], "results": [(b, fw.asm_line(impl[(len(progs) - 1) * nb + k])[:80]) for k, b in enumerate(BUDGETS)]})
     chk.traces += len(ops)
 
